@@ -89,9 +89,11 @@ def tb2(ctx, R):
     from .region import region, cone
     prog = ctx.prog
     # --- Range.within_range, evaluated for the three kinds of range
+    from .sym import simplify
+    from .region import attrs_in
     wr = prog.func("thermocouples.Range.within_range")
     v = ("param", wr.params[1])
-    paths = Sym(prog, wr, wr.cls).function_paths()
+    whole = Sym(prog, wr, wr.cls).function_value()
     lo = ("cmp", "<=", ("self", "start"), v)
     lo2 = ("cmp", ">=", v, ("self", "start"))
     hi = ("cmp", "<", v, ("self", "end"))
@@ -105,12 +107,11 @@ def tb2(ctx, R):
                 if c == _is_none_atom(a):
                     return isnone
             return None
-        sel = select_path(paths, oracle)
+        val = simplify(whole, oracle)
         key = "thermocouples.Range.within_range::%s" % name
-        if sel is None:
-            R.undecided(key, wr.where(), "no unique path for this kind of range")
+        if whole[0] == "opaque" or (isinstance(val, tuple) and val and val[0] == "phi"):
+            R.undecided(key, wr.where(), "membership test not decided for this kind of range: %s" % show(alpha(val))[:100])
             continue
-        val = sel[1]
         if want is not None:
             R.check(val in want, key, wr.where(), show(alpha(val)), "range membership for a range %s is `%s` (expected inclusive start / exclusive end): a value exactly "
                     "on a piece boundary belongs to two pieces or to none" % (name, show(alpha(val))))
@@ -121,21 +122,39 @@ def tb2(ctx, R):
                     "boundary belongs to two pieces or to none" % show(alpha(val)))
     # --- contiguity verification
     vc = prog.func("thermocouples._verify_contiguous")
-    cfg = ctx.cfg(vc)
-    from .rules_resource import _controlling_tests
-    ok = False
-    for r in cfg.where(lambda n: n.kind == "raisestmt"):
-        toks = set()
-        for t in _controlling_tests(cfg, r):
-            toks |= cone(ctx, vc, t.ast)
-            for x in ast.walk(t.ast):
-                if isinstance(x, ast.Compare) and isinstance(x.ops[0], (ast.NotEq,)):
-                    ok = ok or True
-        ok = ok and ".start" in toks and ".end" in toks
-    R.check(ok, "thermocouples._verify_contiguous", vc.where(), "raises unless each piece starts where the previous one ended",
-            "contiguity of the tables is no longer verified (no raise depending on `start != previous end`)")
+    reg = region(ctx, vc, depth=2)
+    raises = [(f, n) for f in reg for n in walk_body(f.node) if isinstance(n, ast.Raise)]
+    toks = set()
+    for f in reg:
+        toks |= attrs_in(f.node)
+    guarded_ne = False
+    for f, n in raises:
+        sy_ = Sym(prog, f, f.cls, inline=False)
+        _env, guards = sy_.env_at(n)
+        from .sem import find as _find, W as _W
+        if any(_find(g, ("cmp", "!=", _W(), _W())) for g in guards):
+            guarded_ne = True
+    key = "thermocouples._verify_contiguous"
+    if not raises:
+        R.violation(key, vc.where(), "contiguity of the tables is no longer verified (nothing is raised)")
+    elif guarded_ne and ".start" in toks and ".end" in toks:
+        R.ok(key, vc.where(), "raises unless each piece starts where the previous one ended")
+    else:
+        R.undecided(key, vc.where(), "the contiguity test was not recognised (a raise exists)")
     ti = prog.func("thermocouples.Thermocouple.__init__")
-    args = sorted(dotted(c.args[0]) or "" for f in region(ctx, ti) for c in walk_body(f.node) if isinstance(c, ast.Call) and call_name(c) == "_verify_contiguous" and c.args)
+    args = []
+    for f in region(ctx, ti):
+        sy_ = Sym(prog, f, f.cls, inline=False)
+        for c in walk_body(f.node):
+            if isinstance(c, ast.Call) and call_name(c) == "_verify_contiguous" and c.args:
+                env, _g = sy_.env_at(c)
+                a = sy_.expr(c.args[0], env)
+                expanded = [a]
+                for it, bv in env.get("<iter>", ()):
+                    if a == bv and it[0] in ("tuple", "list"):
+                        expanded = list(it[1])
+                args += [show(x) for x in expanded]
+    args = sorted(args)
     R.check(len(args) >= 2 and len(set(args)) >= 2, "thermocouples.Thermocouple.__init__::verification", ti.where(), "both tables verified (%s)" % args,
             "contiguity is verified for %s only" % args)
     # --- the two conversions
